@@ -1064,6 +1064,8 @@ def native_helper_check(K4, models_mod, rp, curve, order, rng, ks, count):
         s = rng.randrange(order)
         Rt = m.c_add(K4.c_mul(m, s, B), m.c_neg(K4.c_mul(m, k, Qp)))
         variants = [(True, Rt), (False, m.c_add(Rt, B))]
+        if what != "random" and not m.c_same(K4.c_mul(m, 2 * cof, Rt), m.c_neutral()):
+            variants.append((False, m.c_neg(Rt)))       # same abscissa, opposite point: s*G - k*Q - R = 2*Rt
         if cof > 1 and what != "random":
             # equations that hold only up to the cofactor
             for _, t in m.c_special()[1:]:
@@ -1974,6 +1976,13 @@ def native(K4, models_mod, rp, obs, order_of, rng):
         if mism is not None:
             cnt["failed"] += 1
             cands = [o for o in cand if getattr(o, "candidate", False)]
+            if not cands and cand:
+                # the interpreter could not decide these obligations (e.g. the code left the fragment it
+                # interprets); the reproduced wrong Boolean on the real build is the witness
+                mism = dict(mism, found_by="obligation undecided by the interpreter; native replay of crafted equations")
+                for o in cand:
+                    o.fail(dict(mism), o.solver, o.seconds, o.queries)
+                continue
             if not cands:
                 if not any(getattr(x, "verdict", "") == "violated" and getattr(x, "hint", {}).get("curve") == c
                            for x in obs):
